@@ -274,22 +274,39 @@ def evalSQ (body : Str) : Option Str :=
   | some (v, []) => some v
   | _ => none
 
-/-- what the YAML author wrote: every `{R}` with `R` one of the listed references stands for the referenced
-value, everything else is literal text. `skip` = characters still to be dropped (the rest of a reference). -/
-def substAux (env : Str → Option Str) (refs : List Str) : Nat → Str → Option Str
-  | _, [] => some []
-  | k + 1, _ :: rest => substAux env refs k rest
+/-- a definition read the way the YAML author meant it: literal characters and references `{R}` -/
+inductive Item
+  | lit (c : Nat)
+  | ref (r : Str)
+  deriving DecidableEq, Repr
+
+/-- split a definition into literal characters and references: `{R}` is a reference exactly when `R` is one of
+the listed names (the first listed name that fits), everything else — including any other brace — is literal.
+`skip` = characters still to be dropped (the rest of a reference just recognised). -/
+def scanAux (refs : List Str) : Nat → Str → List Item
+  | _, [] => []
+  | k + 1, _ :: rest => scanAux refs k rest
   | 0, c :: rest =>
     if c = 123 then
       match refs.find? (fun r => (r ++ [125]).isPrefixOf rest) with
-      | some r =>
-        match env r with
-        | some v => (substAux env refs (r.length + 1) rest).map (v ++ ·)
-        | none => none
-      | none => (substAux env refs 0 rest).map (c :: ·)
-    else (substAux env refs 0 rest).map (c :: ·)
+      | some r => .ref r :: scanAux refs (r.length + 1) rest
+      | none => .lit c :: scanAux refs 0 rest
+    else .lit c :: scanAux refs 0 rest
 
-def subst (env : Str → Option Str) (refs : List Str) (d : Str) : Option Str := substAux env refs 0 d
+def scan (refs : List Str) (d : Str) : List Item := scanAux refs 0 d
+
+/-- replace every reference by its value in `env` (`none` when a reference is unbound) -/
+def substItems (env : Str → Option Str) : List Item → Option Str
+  | [] => some []
+  | .lit c :: rest => (substItems env rest).map (c :: ·)
+  | .ref r :: rest =>
+    match env r with
+    | some v => (substItems env rest).map (v ++ ·)
+    | none => none
+
+/-- what the YAML author wrote: every `{R}` with `R` one of the listed references stands for the referenced
+value, everything else is literal text. -/
+def subst (env : Str → Option Str) (refs : List Str) (d : Str) : Option Str := substItems env (scan refs d)
 
 /-- environment lookup in an association list (the most recent binding first) -/
 def lookup (env : List (Str × Str)) (n : Str) : Option Str :=
